@@ -187,9 +187,9 @@ FORMS = [
     Form("set-password", ["set password {}", "set password ENC {}", "set pksecret {}", "set pksecret ENC {}"]),
     Form("password", ["password {}", "passwd {}", "password 7 {}", "password 0 {}", "enable password level 12 {}", "enable password level 3 5 {}", "enable password 7 {}", "neighbor 1.2.3.4 password {}", " neighbor PEERS password 7 {}", "vpdn username someone password {}", "wlccp ap username someone password 7 {}"], trails=["", " foo", " level-2"]),
     Form("isis-password", ["isis password {}"], trails=["", " level-1", " level-2"]),
-    Form("username", ["username Someone password {}", "username Someone password 0 {}", "username Someone view Someview password 7 {}", "username Someone secret {}", "username Someone secret 5 {}", "username noc secret sha512 {}", "username Someone privilege 15 secret 5 {}"]),
+    Form("username", trails=["", "", " role network-admin", " privilege 15"], heads=["username Someone password {}", "username Someone password 0 {}", "username Someone view Someview password 7 {}", "username Someone secret {}", "username Someone secret 5 {}", "username noc secret sha512 {}", "username Someone privilege 15 secret 5 {}"]),
     Form("secret", ["enable secret {}", "enable secret 5 {}", "secret {}", "secret 0 {}", "enable secret level 15 5 {}", "enable secret level 3 {}"]),
-    Form("ip-ftp", ["ip ftp password {}", "ip ftp password 7 {}"]),
+    Form("ip-ftp", ["ip ftp password {}", "ip ftp password 7 {}"], trails=["", " ! set 2024-01-01"]),
     Form("ospf-auth-key", [" ip ospf authentication-key {}", " ip ospf authentication-key 0 {}"]),
     Form("ospf-md-key", [" ip ospf message-digest-key 1 md5 {}", " ip ospf message-digest-key 124 md5 7 {}"]),
     Form("auth-text", ["   vrrp 2 authentication text {}", "  authentication text {}"]),
@@ -202,7 +202,7 @@ FORMS = [
     Form("psk-addr", ["pre-shared-key address 10.0.0.1 key {}", "pre-shared-key address 10.0.0.1 key 6 {}", "pre-shared-key address ipv6 ::1/128 key 6 {}", "pre-shared-key hostname example.com key 6 {}"]),
     Form("ikev2-auth", ["ikev2 local-authentication pre-shared-key {}", "remote-authentication pre-shared-key {}", "ikev2 remote-authentication pre-shared-key {}"]),
     Form("psk", ["pre-shared-key {}", "pre-shared-key 0 {}", "pre-shared-key local 0 {}", "pre-shared-key remote hex {}", "pre-shared-key remote 6 {}", "pre-shared-key ascii-text {}", "pre-shared-key hexadecimal {}", "ikev1 pre-shared-key {}"]),
-    Form("tacacs-key", ["tacacs-server host 1.1.1.1 key {}", "radius-server host 1.1.1.1 key 0 {}", "tacacs-server key 7 {}", "radius-server key {}"]),
+    Form("tacacs-key", ["tacacs-server host 1.1.1.1 key {}", "radius-server host 1.1.1.1 key 0 {}", "tacacs-server key 7 {}", "radius-server key {}"], trails=["", "", " port 49 timeout 5", " authentication accounting", " retransmit 3"]),
     Form("key", [" key {}", " key 0 {}", " key 7 {}", "key hexadecimal {}", "failover key {}"]),
     Form("ntp", ["ntp authentication-key 4294967295 md5 {}", "ntp authentication-key 1 md5 {}"], trails=["", " 1", " 7"]),
     Form("syscon", ["syscon password {}", "syscon address 1.1.1.1 {}"]),
@@ -224,7 +224,7 @@ FORMS = [
     Form("catchall-9", ['set foo bar "{}"', "foo {}", "set interfaces ge-0/0/0 unit 0 description {}"], trails=["", ";"], classes=["j9"], enclose=False),
     Form("catchall-1", ["my hash is {}", 'set system login user someone authenitcation "{}"'], classes=["md5"], enclose=False),
     Form("aws-xml", ["<pre_shared_key>{}</pre_shared_key>", "      <pre_shared_key>{}</pre_shared_key>"], classes=["text"], text_kw={"exact": 32}, enclose=False),
-    Form("aws-json", ['"PreSharedKey": "{}",', '        "PreSharedKey": "{}"'], classes=["text"], text_kw={"exact": 32}, enclose=False),
+    Form("aws-json", ['"PreSharedKey": "{}",', '        "PreSharedKey": "{}"', '{"TunnelOptions": [{"OutsideIpAddress": "203.0.113.7", "PreSharedKey": "{}"'], trails=["", "", ', "TunnelInsideCidr": "169.254.44.0/30"}', ', "Phase1LifetimeSeconds": 28800, "IkeVersions": [{"Value": "ikev2"}]}]}'], classes=["text"], text_kw={"exact": 32}, enclose=False),
     # whole-line scrub forms (secret group index None)
     Form("encrypted-password", ['set system root-authentication encrypted-password "{}"', 'set system login user admin authentication encrypted-password "{}"', "encrypted-password {}"], trails=["", ";"], mode="scrub", enclose=False),
     Form("cable-shared-secret", ["cable shared-secret {}", "cable shared-secret 7 {}"], mode="scrub", enclose=False),
